@@ -30,6 +30,11 @@ def check(ctx):
     # "accessors return what the builder was given": builder setters -> time scale fields -> getters (C03/R5)
     from rules import timescale_table as TT
     c03.rule_metadata(ctx, TT.build(ctx), "G10")
+    # "evaluates per C01": the builder hands the generated build() the keyframes as given, sorted once by position (C11/R1)
+    from rules import c11
+    for bb in [x for x in c11.builders_of(ctx.facts, c11.TBA) if ctx.facts.body_unit[x["id"]][0] == "mina_core"]:
+        c11.check_builder(ctx, ctx.facts, bb, "G11")
+    c11.rule_append_only(ctx, ctx.facts, "G11")
     ctx.extra["programs"] = n
     ctx.extra["disagreements_checked"] = n
     ctx.extra["tv_samples"] = [{"shape": s.label, "animated": s.animated, "target": s.target} for s in shapes[:8]]
